@@ -45,6 +45,11 @@ var c05Specs = []c05PoolSpec{
 	{"oracle_lev_5050_1e6", true, "uatom", 1000000, 5000000, 1, 1, false, true},
 	{"oracle_lev_5050_1e12", true, "uatom", 1000000000000, 5000000000000, 1, 1, false, true},
 	{"oracle_lev_offtarget_1e12", true, "uatom", 1000000000000, 5000000000000, 1, 1, true, true},
+	// created FAR off the 50:50 target (10 % ATOM by value): beyond the weight-difference threshold,
+	// where rebalancing operations earn a bonus and weight-breaking ones pay a fee
+	{"oracle_faroff_1e6", true, "uatom", 200000, 9000000, 1, 1, false, false},
+	{"oracle_faroff_1e12", true, "uatom", 200000000000, 9000000000000, 1, 1, false, false},
+	{"oracle_lev_faroff_1e12", true, "uatom", 200000000000, 9000000000000, 1, 1, false, true},
 }
 
 type c05Unit struct {
